@@ -2,7 +2,7 @@
     harness fed to Go's path package and to caco3, and compare with what was
     observed. *)
 From Coq Require Import List NArith Bool String.
-From Verif Require Import Lib.Path Caco.Names Caco.Match Caco.FileSet Caco.NamesGen Gen.CacoConsts.
+From Verif Require Import Lib.Path Caco.Names Caco.Match Caco.FileSet Caco.NamesGenDefs Gen.CacoConsts.
 Import ListNotations.
 Local Open Scope N_scope.
 
